@@ -141,9 +141,18 @@ def run(ctx, rep):
     # ------------------------------------------------------------------ R4 status mapping
     cfgp = ctx.cfg(pc)
     uc = node_calls(cfgp, "update_current_order")
-    good = len(uc) == 1 and not cfgp.guards(uc[0][0].id) and all(
+    good = len(uc) == 1 and cfgp.unconditional(uc[0][0].id) and all(
         cfgp.dominates(uc[0][0].id, n.id) for n in cfgp.live_nodes() if n.kind == "cond")
     rep.check(good, "R4", key(pc, None, "the exchange object is stored before anything is decided"), pc)
+    uco = prog.own_method("BaseOrder", "update_current_order")
+    cfgu = ctx.cfg(uco)
+    st = [n for n in cfgu.live_nodes() if n.kind == "stmt" and isinstance(n.ast, ast.Assign)
+          and utext(n.ast.targets[0]) == "self.responses.current_order" and utext(n.ast.value) == uco.params[1]]
+    rep.check(len(st) == 1 and cfgu.unconditional(st[0].id), "R4",
+              key(uco, None, "every snapshot delivered for the order replaces the stored one, whatever the order's state"), uco,
+              None, "sizes and average price are read from the stored snapshot: one that is dropped leaves stale figures for good")
+    for sc in prog.cls("BaseOrder").all_subclasses():
+        rep.check("update_current_order" not in sc.methods, "R4", "%s does not override update_current_order" % sc.name)
     setters = {"executable": [n.id for n, c in node_calls(cfgp, "executable")],
                "execution_complete": [n.id for n, c in node_calls(cfgp, "execution_complete")]}
     from rules.c05 import reach_under
@@ -307,4 +316,8 @@ MUTANTS = [
          old="    market.blotter[order.id] = order\n    runner_context = strategy.get_runner_context(*order.lookup)\n    runner_context.place(trade.id)\n    order.placing()\n",
          new="    order.placing()\n    runner_context = strategy.get_runner_context(*order.lookup)\n    runner_context.place(trade.id)\n    market.blotter[order.id] = order\n",
          expect=["R3"], why="order visible as PENDING before it is in the blotter"),
+    dict(id="c11-snapshot-dropped-when-complete", file="flumine/order/order.py", func="BaseOrder.update_current_order",
+         old="        self.responses.current_order = current_order",
+         new="        if self.complete and self.responses.current_order is not None:\n            return\n        self.responses.current_order = current_order",
+         expect=["R4"], why="the final snapshot of a completed order is dropped"),
 ]
